@@ -517,7 +517,7 @@ def manifest_task(item):
             with open(fp, 'w', encoding='utf-8') as f:
                 f.write(t)
             paths.append(fp)
-        code, api, so, se, esc = impl.run_cli(['python_types', os.path.join(d, 'o1'), '--output-manifest'] + paths + ['--', '-p', 'pkg'])
+        code, api, so, se, esc = impl.run_cli(['python_types', os.path.join(d, 'o1')] + paths + ['--output-manifest', '--', '-p', 'pkg'])
         code2, api2, so2, se2, esc2 = impl.run_cli(['python_types', os.path.join(d, 'o2')] + paths + ['--', '-p', 'pkg'])
         if code == 0 and code2 == 0:
             listed = json.loads(so)
@@ -547,8 +547,10 @@ def run(tier, seed):
     maxlen = 3 if tier == 'quick' else 4
     items = [('path', k, p) for k, p in path_candidates(maxlen)]
     npaths = len(items)
-    slen = 2 if tier == 'quick' else 3
-    all_scripts = list(scripts(slen))
+    slen = 3 if tier == 'quick' else 4
+    all_scripts = list(scripts(slen)) if tier == 'quick' else [sc for sc in scripts(slen) if len(sc) < 4 or sum(1 for op in sc if op[0] in ('emit', 'raw')) <= 1]
+    if tier != 'quick':
+        r.notes.append('length-4 scripts: those with at most one plain emit/emit_raw (the combinations of contexts, lists, wrapped text and placeholders)')
     chunk = 400
     for i in range(0, len(all_scripts), chunk):
         items.append(('emit', all_scripts[i:i + chunk]))
